@@ -57,7 +57,7 @@ impl Property for C10 {
         vec!["workspace symbols and completion items are LS-level results (hook H3) and are not covered by this check; they are derived from the indexes whose contents are dumped here".into()]
     }
     fn cases(&self, tier: Tier) -> u32 {
-        tier.pick(10000, 300_000)
+        tier.pick(30_000, 300_000)
     }
     fn strategy(&self, tier: Tier) -> BoxedStrategy<Case> {
         let kind = prop_oneof![3 => Just(Kind::Remove), 1 => Just(Kind::CloseNone), 1 => Just(Kind::BatchNone)];
